@@ -11,7 +11,9 @@
 //   - for each arm of convertToScriptValue: reflect accessor, cast, constructor;
 //   - for each `case T:` clause of the type switches in
 //     utils.convertFrom{Int,String,Float,Bool}Value: the static type of the
-//     value asserted back to S and the shape of the expression.
+//     value asserted back to S and the shape of the expression;
+//   - (memo.go) every table of runtime/reflect_*.go written while calls are served and
+//     what its entries are keyed by.
 //
 // Anything that does not have the expected syntactic shape becomes an entry of
 // `shapeChanged`, which makes the obligation in Proofs/Properties/C17.lean fail.
@@ -690,7 +692,7 @@ func main() {
 	}
 
 	var sb strings.Builder
-	sb.WriteString("import Model.Conv\n")
+	sb.WriteString("import Model.Conv\nimport Model.ConvReg\n")
 	sb.WriteString("/-! Kind-switch tables of runtime/reflect_register.go, runtime/reflect_class.go and utils/utils.go. -/\n")
 	sb.WriteString("namespace Generated.C17GoKinds\nopen Model.Conv\n\n")
 	wIn := func(name, doc string, arms []inArm) {
@@ -736,6 +738,8 @@ func main() {
 	wGen("genFromFloat", "clauses of `utils.convertFromFloatValue`", gFlt)
 	wGen("genFromBool", "clauses of `utils.convertFromBoolValue`", gBool)
 	sb.WriteString("def gen : GenTables := { fromInt := genFromInt, fromStr := genFromStr, fromFloat := genFromFloat, fromBool := genFromBool }\n\n")
+	memos := memoFacts(a.Repo)
+	writeMemos(&sb, memos)
 	sb.WriteString("/-- places where the source no longer has the syntactic shape the translator understands -/\ndef shapeChanged : List String := [")
 	for i, s := range shape {
 		if i > 0 {
@@ -748,7 +752,10 @@ func main() {
 		fmt.Fprintln(os.Stderr, err)
 		os.Exit(1)
 	}
-	fmt.Printf("C17GoKinds: in=%d/%d out=%d/%d gen=%d/%d/%d/%d shapeChanged=%d\n", len(inFn), len(inM), len(outFn), len(outM), len(gInt), len(gStr), len(gFlt), len(gBool), len(shape))
+	fmt.Printf("C17GoKinds: in=%d/%d out=%d/%d gen=%d/%d/%d/%d memos=%d shapeChanged=%d\n", len(inFn), len(inM), len(outFn), len(outM), len(gInt), len(gStr), len(gFlt), len(gBool), len(memos), len(shape))
+	for _, m := range memos {
+		fmt.Printf("  memo: %s keyBy=%s datum=%s\n", m.site, m.keyBy, m.datum)
+	}
 	for _, s := range shape {
 		fmt.Println("  shapeChanged:", s)
 	}
